@@ -298,7 +298,7 @@ def scalar_operand_cases(rnd, n, prefix="SC"):
             s1 = rnd.choice(["2", "3", "0", "1"]) if not isf else rnd.choice(["2.0", "0.5", "0.0", "-0.0", "1.0"])
             x["data"] = [ops.fhex(abs(float.fromhex(v)) if v != "nan" else 1.0) if isf else abs(v) % 5 for v in x["data"]]
         first = rnd.random() < 0.5
-        call = (lambda s_: f"x {OPSYM[f]} {s_}" if not first else f"{s_} {OPSYM[f]} x") if f in OPSYM and rnd.random() < 0.5 else \
+        call = (lambda s_: f"x {OPSYM[f]} ({s_})" if not first else f"({s_}) {OPSYM[f]} x") if f in OPSYM and rnd.random() < 0.5 else \
                (lambda s_: f"ndx.{f}(x, {s_})" if not first else f"ndx.{f}({s_}, x)")
         ncall = (lambda s_: np_call(f, ["x", s_]) if not first else np_call(f, [s_, "x"]))
         impl, orc = f"out = {call(s1)}", f"out = {ncall(s1)}"
